@@ -811,7 +811,7 @@ func isIterPosition(v ssa.Value) bool {
 // the others use <= copies a one-element deque as if it were wrapped.
 var _ = late(func() {
 	p := properties["C04"]
-	p.Rules = append(p.Rules, &Rule{ID: "C04.contiguity-siblings", Floor: 2, Clause: "every comparison of a deque's front with its back (Len, resize, …) cuts at the same point: front <= back / front > back everywhere, so a one-element deque (front == back) is treated as contiguous by all of them",
+	p.Rules = append(p.Rules, &Rule{ID: "C04.contiguity-siblings", Floor: 1, Clause: "every comparison of a deque's front with its back (Len, resize, …) cuts at the same point: front <= back / front > back everywhere, so a one-element deque (front == back) is treated as contiguous by all of them",
 		Run: func(c *Ctx, r *R) {
 			type site struct {
 				pos  token.Pos
@@ -866,14 +866,14 @@ var _ = late(func() {
 				count[s.rel]++
 			}
 			major := "<="
-			if count["<"] > count["<="] {
+			if count["<"] > count["<="] && len(sites) >= 2 {
 				major = "<"
 			}
 			for i, s := range sites {
 				r.ok(s.rel == major, s.name+"|front-vs-back#"+itoa(i+1), s.pos, "this test treats front == back (a one-element deque) differently from the other "+itoa(count[major])+" front/back comparisons of the package (which cut at front "+major+" back): a one-element deque is copied or measured as if it wrapped around")
 			}
-			if len(sites) < 2 {
-				r.undecided("container/deque|front-vs-back", token.NoPos, "fewer than two front/back comparisons found")
+			if len(sites) == 0 {
+				r.discharged("container/deque|front-vs-back", token.NoPos, "the package compares front with back nowhere (lengths and copies are computed arithmetically): no two tests can disagree")
 			}
 		}})
 })
